@@ -401,6 +401,145 @@ theorem point_clean_toPt {ver : Nat} {seen : List Str} {e : Elem} {as : List Att
     cases Spec.get as "type" <;> rfl
 end
 
+/-! ### the identifier an element parser returns is exactly the `identifier` attribute -/
+
+section
+variable {rd : Str → Option Nat}
+
+theorem readIdent_eq {ver : Nat} {seen : List Str} {v i : Str} (h : readIdent ver seen v = some i) : i = v := by
+  unfold readIdent at h
+  repeat' split at h
+  all_goals first | (cases h; done) | (cases h; rfl)
+
+/-- the identifier an attribute loop ends with is the value of the `identifier` attribute, when the loop sets it only there -/
+theorem fold_ident_exact {σ : Type} (st : σ → Attr → Option σ) (f : σ → Option Str)
+    (hset : ∀ acc a acc', a.1 = sIdentifier → st acc a = some acc' → f acc' = some a.2)
+    (hkeep : ∀ acc a acc', a.1 ≠ sIdentifier → st acc a = some acc' → f acc' = f acc)
+    {as : List Attr} (hnd : (as.map (·.1)).Nodup) {acc acc' : σ} (h : foldAttrs st acc as = some acc') (h0 : f acc = none) :
+    f acc' = Spec.get as "identifier" := by
+  cases hg : Spec.get as "identifier" with
+  | none =>
+    have := (foldAttrs_value st f sIdentifier none as hkeep
+      (fun acc a acc' ha hk _ => absurd (List.mem_map.2 ⟨a, ha, hk⟩) (not_mem_of_get_none hg)) acc acc' h).2
+      (not_mem_of_get_none hg)
+    rw [this, h0]
+  | some i =>
+    refine (foldAttrs_value st f sIdentifier (some i) as hkeep ?_ acc acc' h).1 (List.mem_map.2 ⟨_, get_mem hg, rfl⟩)
+    intro acc a acc' ha hk hs
+    obtain ⟨a1, a2⟩ := a
+    simp only at hk; subst hk
+    have := get_of_mem_nodup hnd ha
+    rw [hg] at this; cases this
+    exact hset _ _ _ rfl hs
+
+theorem parseAnchor_ident {ver : Nat} {seen : List Str} {as : List Attr} {x : Anchor} (hnd : (as.map (·.1)).Nodup)
+    (hp : parseAnchor rd ver seen as = some x) : x.ident = Spec.get as "identifier" := by
+  unfold parseAnchor at hp
+  cases hacc : foldAttrs (aStep rd ver seen) {} as with
+  | none => simp [hacc] at hp
+  | some acc =>
+    simp only [hacc] at hp
+    have hx : x.ident = acc.ident := by
+      unfold aFinish at hp
+      repeat' split at hp
+      all_goals first | (cases hp; done) | (cases hp; rfl)
+    rw [hx]
+    refine fold_ident_exact (aStep rd ver seen) (·.ident) ?_ ?_ hnd hacc rfl
+    · intro acc a acc' hk hs
+      have hkk : aKeyOf sIdentifier = some .ident := by decide
+      simp only [aStep, hk, hkk, aApply] at hs
+      split at hs
+      · rename_i i hi; cases hs; simp [readIdent_eq hi]
+      · cases hs
+    · intro acc a acc' hne hs
+      unfold aStep at hs; split at hs
+      · cases hs
+      · rename_i k hk
+        cases k <;> simp only [aApply] at hs <;> repeat' split at hs
+        all_goals first | (cases hs; done) | (cases hs; first | rfl | exact absurd (aKeyOf_ident_eq hk) hne)
+theorem guKeyOf_ident_eq {s : Str} (h : guKeyOf s = some GuKey.ident) : s = sIdentifier := by
+  have := guKeyOf_eq h; simpa [guKeyName] using this
+
+theorem parseGuideline_ident {ver : Nat} {seen : List Str} {as : List Attr} {x : Guideline} (hnd : (as.map (·.1)).Nodup)
+    (hp : parseGuideline rd ver seen as = some x) : x.ident = Spec.get as "identifier" := by
+  unfold parseGuideline at hp
+  cases hacc : foldAttrs (guStep rd ver seen) {} as with
+  | none => simp [hacc] at hp
+  | some acc =>
+    simp only [hacc] at hp
+    have hx : x.ident = acc.ident := by
+      unfold guFinish at hp
+      repeat' split at hp
+      all_goals first | (cases hp; done) | (cases hp; rfl)
+    rw [hx]
+    refine fold_ident_exact (guStep rd ver seen) (·.ident) ?_ ?_ hnd hacc rfl
+    · intro acc a acc' hk hs
+      have hkk : guKeyOf sIdentifier = some .ident := by decide
+      simp only [guStep, hk, hkk, guApply] at hs
+      split at hs
+      · rename_i i hi; cases hs; simp [readIdent_eq hi]
+      · cases hs
+    · intro acc a acc' hne hs
+      unfold guStep at hs; split at hs
+      · cases hs
+      · rename_i k hk
+        cases k <;> simp only [guApply] at hs <;> repeat' split at hs
+        all_goals first | (cases hs; done) | (cases hs; first | rfl | exact absurd (guKeyOf_ident_eq hk) hne)
+
+theorem parsePoint_ident {ver : Nat} {seen : List Str} {as : List Attr} {x : Point} (hnd : (as.map (·.1)).Nodup)
+    (hp : parsePoint rd ver seen as = some x) : x.ident = Spec.get as "identifier" := by
+  unfold parsePoint at hp
+  cases hacc : foldAttrs (pStep rd ver seen) {} as with
+  | none => simp [hacc] at hp
+  | some acc =>
+    simp only [hacc] at hp
+    have hx : x.ident = acc.ident := by
+      unfold pFinish at hp
+      repeat' split at hp
+      all_goals first | (cases hp; done) | (cases hp; rfl)
+    rw [hx]
+    refine fold_ident_exact (pStep rd ver seen) (·.ident) ?_ ?_ hnd hacc rfl
+    · intro acc a acc' hk hs
+      have hkk : pKeyOf sIdentifier = some .ident := by decide
+      simp only [pStep, hk, hkk, pApply] at hs
+      split at hs
+      · rename_i i hi; cases hs; simp [readIdent_eq hi]
+      · cases hs
+    · intro acc a acc' hne hs
+      unfold pStep at hs; split at hs
+      · cases hs
+      · rename_i k hk
+        cases k <;> simp only [pApply] at hs <;> repeat' split at hs
+        all_goals first | (cases hs; done) | (cases hs; first | rfl | exact absurd (pKeyOf_ident_eq hk) hne)
+
+theorem parseComponent_ident {ver : Nat} {seen : List Str} {as : List Attr} {x : Component} (hnd : (as.map (·.1)).Nodup)
+    (hp : parseComponent rd ver seen as = some x) : x.ident = Spec.get as "identifier" := by
+  unfold parseComponent at hp
+  cases hacc : foldAttrs (cStep rd ver seen) {} as with
+  | none => simp [hacc] at hp
+  | some acc =>
+    simp only [hacc] at hp
+    have hx : x.ident = acc.ident := by
+      unfold cFinish at hp
+      repeat' split at hp
+      all_goals first | (cases hp; done) | (cases hp; rfl)
+    rw [hx]
+    refine fold_ident_exact (cStep rd ver seen) (·.ident) ?_ ?_ hnd hacc rfl
+    · intro acc a acc' hk hs
+      have hkk : cKeyOf sIdentifier = some .ident := by decide
+      simp only [cStep, hk, hkk, cApply] at hs
+      split at hs
+      · rename_i i hi; cases hs; simp [readIdent_eq hi]
+      · cases hs
+    · intro acc a acc' hne hs
+      unfold cStep at hs; split at hs
+      · cases hs
+      · rename_i k hk
+        cases k <;> simp only [cApply] at hs <;> repeat' split at hs
+        all_goals first | (cases hs; done) | (cases hs; first | rfl | exact absurd (cKeyOf_ident_eq hk) hne)
+
+end
+
 /-! ### contours and outlines -/
 
 section
@@ -437,12 +576,14 @@ theorem contour_kids_reach (law : ReadsNumerals rd) : ∀ (ks : List CItem) (s :
     (ks.flatMap citemIdents).Nodup → (∀ i, i ∈ ks.flatMap citemIdents → i ∉ s.seen) →
     ∃ sn newpts, Reach rd s (ks.flatMap CItem.evs) { s with seen := sn, mode := .contour ob cid (pts ++ newpts) } ∧
       (∀ i, i ∈ sn → i ∈ s.seen ∨ i ∈ ks.flatMap citemIdents) ∧
-      newpts.map toPt = (contourElems ks).map ptOfElem := by
+      newpts.map toPt = (contourElems ks).map ptOfElem ∧
+      (∀ i, (i ∈ s.seen ∨ i ∈ ks.flatMap citemIdents) → i ∈ sn) := by
   intro ks
   induction ks with
   | nil =>
     intro s ob cid pts hm _ _ _ _
-    exact ⟨s.seen, [], (Reach.nil s).cast (by cases s with | mk g _ _ _ _ _ _ => simp_all), fun i hi => Or.inl hi, rfl⟩
+    exact ⟨s.seen, [], (Reach.nil s).cast (by cases s with | mk g _ _ _ _ _ _ => simp_all), fun i hi => Or.inl hi, rfl,
+      fun i hi => hi.elim id (fun h => by simp at h)⟩
   | cons k r ih =>
     intro s ob cid pts hm hsh hel hnd hfr
     rw [List.flatMap_cons] at hnd hfr
@@ -450,13 +591,15 @@ theorem contour_kids_reach (law : ReadsNumerals rd) : ∀ (ks : List CItem) (s :
     cases k with
     | comment =>
       have h1 : step rd s .comment = .ok (.inl s) := by simp [step, hm, stepContour, cont]
-      obtain ⟨sn, np, hr, hs1, hs2⟩ := ih s ob cid pts hm (fun k hk => hsh k (List.mem_cons_of_mem _ hk))
+      obtain ⟨sn, np, hr, hs1, hs2, hs3⟩ := ih s ob cid pts hm (fun k hk => hsh k (List.mem_cons_of_mem _ hk))
         (fun e he => hel e (List.mem_cons_of_mem _ he)) n2 (fun i hi => hfr i (List.mem_append_right _ hi))
-      refine ⟨sn, np, by simpa [List.flatMap_cons, CItem.evs] using Reach.cons h1 hr, ?_, ?_⟩
+      refine ⟨sn, np, by simpa [List.flatMap_cons, CItem.evs] using Reach.cons h1 hr, ?_, ?_, ?_⟩
       · intro i hi; rcases hs1 i hi with h | h
         · exact Or.inl h
         · exact Or.inr (by simp [List.flatMap_cons, citemIdents, h])
       · simpa [contourElems, List.filterMap_cons] using hs2
+      · intro i hi
+        exact hs3 i (hi.imp id (fun h => by simpa [List.flatMap_cons, citemIdents] using h))
     | elem e =>
       obtain ⟨hname, hclean⟩ := hel e List.mem_cons_self
       obtain ⟨hndA, hsc⟩ := hsh _ List.mem_cons_self
@@ -479,14 +622,25 @@ theorem contour_kids_reach (law : ReadsNumerals rd) : ∀ (ks : List CItem) (s :
           rcases hi with rfl | hi
           · exact Or.inr (by rw [hids, hxi _ hx]; simp)
           · exact Or.inl hi
-      obtain ⟨sn, np, hr, hs1, hs2⟩ := ih { s with seen := addSeen s.seen x.ident, mode := .contour ob cid (pts ++ [x]) }
+      obtain ⟨sn, np, hr, hs1, hs2, hs3⟩ := ih { s with seen := addSeen s.seen x.ident, mode := .contour ob cid (pts ++ [x]) }
         ob cid (pts ++ [x]) rfl (fun k hk => hsh k (List.mem_cons_of_mem _ hk))
         (fun e he => hel e (List.mem_cons_of_mem _ he)) n2 (by
           intro i hi hmem
           rcases hseen1 i hmem with h | h
           · exact hfr i (List.mem_append_right _ hi) h
           · exact n3 i h i hi rfl)
-      refine ⟨sn, x :: np, ?_, ?_, ?_⟩
+      have hlow : ∀ i, (i ∈ s.seen ∨ i ∈ (CItem.elem e :: r).flatMap citemIdents) → i ∈ sn := by
+        intro i hi
+        rw [List.flatMap_cons, List.mem_append, hids] at hi
+        rcases hi with h | h | h
+        · exact hs3 i (Or.inl (mem_addSeen h))
+        · refine hs3 i (Or.inl ?_)
+          rw [parsePoint_ident hnda hp]
+          cases hg : Spec.get as "identifier" with
+          | none => simp [hg] at h
+          | some j => simp [hg] at h; simp [addSeen, h]
+        · exact hs3 i (Or.inr h)
+      refine ⟨sn, x :: np, ?_, ?_, ?_, hlow⟩
       · have := Reach.cons h1 hr
         simp only [List.flatMap_cons, CItem.evs, Elem.evs, hsc, if_true, List.cons_append, List.nil_append]
         exact this.cast (by simp [List.append_assoc])
@@ -573,25 +727,28 @@ theorem outline_kids_reach (law : ReadsNumerals rd) : ∀ (ks : List OItem) (s :
     (∀ k, k ∈ ks → OShaped k) → (∀ k, k ∈ ks → oitemCheck rd s.ver k = ([], false)) →
     (ks.flatMap oitemIdents).Nodup → (∀ i, i ∈ ks.flatMap oitemIdents → i ∉ s.seen) →
     ∃ sn ob', Reach rd s (ks.flatMap OItem.evs) { s with seen := sn, mode := .outline ob' } ∧
-      (∀ i, i ∈ sn → i ∈ s.seen ∨ i ∈ ks.flatMap oitemIdents) := by
+      (∀ i, i ∈ sn → i ∈ s.seen ∨ i ∈ ks.flatMap oitemIdents) ∧
+      (∀ i, (i ∈ s.seen ∨ i ∈ ks.flatMap oitemIdents) → i ∈ sn) := by
   intro ks
   induction ks with
   | nil =>
     intro s ob hm _ _ _ _
-    exact ⟨s.seen, ob, (Reach.nil s).cast (by cases s with | mk g _ _ _ _ _ _ => simp_all), fun i hi => Or.inl hi⟩
+    exact ⟨s.seen, ob, (Reach.nil s).cast (by cases s with | mk g _ _ _ _ _ _ => simp_all), fun i hi => Or.inl hi,
+      fun i hi => hi.elim id (fun h => by simp at h)⟩
   | cons k r ih =>
     intro s ob hm hsh hcl hnd hfr
     rw [List.flatMap_cons] at hnd hfr
     obtain ⟨n1, n2, n3⟩ := List.nodup_append.1 hnd
     -- one item: from `s` to a state of the same form
     have hone : ∃ sn ob', Reach rd s (OItem.evs k) { s with seen := sn, mode := .outline ob' } ∧
-        (∀ i, i ∈ sn → i ∈ s.seen ∨ i ∈ oitemIdents k) := by
+        (∀ i, i ∈ sn → i ∈ s.seen ∨ i ∈ oitemIdents k) ∧ (∀ i, (i ∈ s.seen ∨ i ∈ oitemIdents k) → i ∈ sn) := by
       have hk := hcl k List.mem_cons_self
       have hs := hsh k List.mem_cons_self
       cases k with
       | comment =>
         have h1 : step rd s .comment = .ok (.inl s) := by simp [step, hm, stepOutline, cont]
-        exact ⟨s.seen, ob, (Reach.one h1).cast (by cases s with | mk g _ _ _ _ _ _ => simp_all), fun i hi => Or.inl hi⟩
+        exact ⟨s.seen, ob, (Reach.one h1).cast (by cases s with | mk g _ _ _ _ _ _ => simp_all), fun i hi => Or.inl hi,
+          fun i hi => hi.elim id (fun h => by simp [oitemIdents] at h)⟩
       | elem e =>
         obtain ⟨hndA, hsc⟩ := hs
         simp only [oitemCheck] at hk
@@ -606,7 +763,16 @@ theorem outline_kids_reach (law : ReadsNumerals rd) : ∀ (ks : List OItem) (s :
           have h1 : step rd s (.empty e.name e.attrs) = .ok (.inl
               { s with seen := addSeen s.seen x.ident, mode := .outline { ob with components := ob.components ++ [x] } }) := by
             rw [hn, hc.attrs]; simp +decide [step, hm, stepOutline, hp, cont]
-          refine ⟨addSeen s.seen x.ident, { ob with components := ob.components ++ [x] }, ?_, ?_⟩
+          refine ⟨addSeen s.seen x.ident, { ob with components := ob.components ++ [x] }, ?_, ?_, ?_⟩
+          rotate_left 2
+          · intro i hi
+            rw [hids] at hi
+            rcases hi with h | h
+            · exact mem_addSeen h
+            · rw [parseComponent_ident hnda hp]
+              cases hg : Spec.get as "identifier" with
+              | none => simp [hg] at h
+              | some j => simp [hg] at h; simp [addSeen, h]
           · simp only [OItem.evs, Elem.evs, hsc, if_true]
             exact Reach.one h1
           · intro i hi
@@ -623,7 +789,8 @@ theorem outline_kids_reach (law : ReadsNumerals rd) : ∀ (ks : List OItem) (s :
         cases sc with
         | true =>
           have h1 : step rd s (.empty sContour a) = .ok (.inl s) := by simp [step, hm, stepOutline, cont]
-          exact ⟨s.seen, ob, (Reach.one h1).cast (by cases s with | mk g _ _ _ _ _ _ => simp_all), fun i hi => Or.inl hi⟩
+          exact ⟨s.seen, ob, (Reach.one h1).cast (by cases s with | mk g _ _ _ _ _ _ => simp_all), fun i hi => Or.inl hi,
+            fun i hi => hi.elim id (fun h => by simp [oitemIdents] at h)⟩
         | false =>
           simp only [oitemCheck] at hk
           obtain ⟨⟨as, rfl, hown⟩, hper, hleg⟩ := contourCheck_clean hk
@@ -647,7 +814,7 @@ theorem outline_kids_reach (law : ReadsNumerals rd) : ∀ (ks : List OItem) (s :
               rcases hi with rfl | hi
               · exact Or.inr (by simp)
               · exact Or.inl hi
-          obtain ⟨sn, np, hr, hs1, hs2⟩ := contour_kids_reach law kids
+          obtain ⟨sn, np, hr, hs1, hs2, hs3⟩ := contour_kids_reach law kids
             { s with seen := addSeen s.seen (Spec.get as "identifier"), mode := .contour ob (Spec.get as "identifier") [] }
             ob (Spec.get as "identifier") [] rfl hkids hper m2 (by
               intro i hi hmem
@@ -661,7 +828,17 @@ theorem outline_kids_reach (law : ReadsNumerals rd) : ∀ (ks : List OItem) (s :
                 { ob with contours := ob.contours ++ [{ points := [] ++ np, ident := Spec.get as "identifier" }] }) }) := by
             simp only [step, stepContour, hacc, if_true, cont]
           refine ⟨sn, (if ([] ++ np).isEmpty then ob else
-                { ob with contours := ob.contours ++ [{ points := [] ++ np, ident := Spec.get as "identifier" }] }), ?_, ?_⟩
+                { ob with contours := ob.contours ++ [{ points := [] ++ np, ident := Spec.get as "identifier" }] }), ?_, ?_, ?_⟩
+          rotate_left 2
+          · intro i hi
+            rw [hids, List.mem_append] at hi
+            rcases hi with h | h | h
+            · exact hs3 i (Or.inl (mem_addSeen h))
+            · refine hs3 i (Or.inl ?_)
+              cases hg : Spec.get as "identifier" with
+              | none => simp [hg] at h
+              | some j => simp [hg] at h; simp [addSeen, h]
+            · exact hs3 i (Or.inr h)
           · simp only [OItem.evs]
             exact Reach.cons h1 (Reach.append hr (Reach.one h3))
           · intro i hi
@@ -670,14 +847,21 @@ theorem outline_kids_reach (law : ReadsNumerals rd) : ∀ (ks : List OItem) (s :
               · exact Or.inl h'
               · exact Or.inr (by rw [hids]; exact List.mem_append_left _ h')
             · exact Or.inr (by rw [hids]; exact List.mem_append_right _ h)
-    obtain ⟨sn1, ob1, hr1, hb1⟩ := hone
-    obtain ⟨sn2, ob2, hr2, hb2⟩ := ih { s with seen := sn1, mode := .outline ob1 } ob1 rfl
+    obtain ⟨sn1, ob1, hr1, hb1, hl1⟩ := hone
+    obtain ⟨sn2, ob2, hr2, hb2, hl2⟩ := ih { s with seen := sn1, mode := .outline ob1 } ob1 rfl
       (fun k hk => hsh k (List.mem_cons_of_mem _ hk)) (fun k hk => hcl k (List.mem_cons_of_mem _ hk)) n2 (by
         intro i hi hmem
         rcases hb1 i hmem with h | h
         · exact hfr i (List.mem_append_right _ hi) h
         · exact n3 i h i hi rfl)
-    refine ⟨sn2, ob2, ?_, ?_⟩
+    refine ⟨sn2, ob2, ?_, ?_, ?_⟩
+    rotate_left 2
+    · intro i hi
+      rw [List.flatMap_cons, List.mem_append] at hi
+      rcases hi with h | h | h
+      · exact hl2 i (Or.inl (hl1 i (Or.inl h)))
+      · exact hl2 i (Or.inl (hl1 i (Or.inr h)))
+      · exact hl2 i (Or.inr h)
     · rw [List.flatMap_cons]
       exact (Reach.append hr1 hr2).cast (by simp)
     · intro i hi
@@ -704,13 +888,26 @@ def NShaped : NItem → Prop
 
 def IShaped : Item → Prop
   | .elem e => NodupAttrs e.attrs ∧ (if e.name = sNote then e.selfClosed = false else e.selfClosed = true)
-  | .outline _ _ kids => ∀ k, k ∈ kids → OShaped k
+  | .outline _ sc kids => (∀ k, k ∈ kids → OShaped k) ∧ (sc = true → kids = [])
   | .lib _ _ inner => ∀ e, e ∈ inner → libSkips e = true
   | .note _ kids => ∀ k, k ∈ kids → NShaped k
   | .comment => True
 
 /-- `public.objectLibs`, if present, is a dictionary of dictionaries -/
 def LibOK (l : Dict) : Prop := ∀ v, dictGet objectLibsKey l = some v → ∃ ol, v = PV.dict ol ∧ AllDicts ol
+
+/-- the lower bounds: what the item certainly left in the state -/
+structure BodyLow (s' : PS) (ids : List Str) (nm : Option Str) : Prop where
+  seen : ∀ i, i ∈ ids → i ∈ s'.seen
+  adv : nm = some sAdvance → s'.seenAdvance = true
+  outline : nm = some sOutline → s'.seenOutline = true
+  lib : nm = some sLib → s'.seenLib = true
+  image : nm = some sImage → s'.g.image.isSome = true
+
+/-- a `note` element with text in it -/
+def noteWithText : Item → Prop
+  | .note _ kids => ∃ t, NItem.text (some t) ∈ kids
+  | _ => False
 
 structure BodyStep (s s' : PS) (ids : List Str) (nm : Option Str) : Prop where
   mode : s'.mode = .body
@@ -721,6 +918,7 @@ structure BodyStep (s s' : PS) (ids : List Str) (nm : Option Str) : Prop where
   lib : s'.seenLib = true → s.seenLib = true ∨ nm = some sLib
   note : s'.g.note.isSome = true → s.g.note.isSome = true ∨ nm = some sNote
   image : s'.g.image.isSome = true → s.g.image.isSome = true ∨ nm = some sImage
+  low : BodyLow s' ids nm
 
 theorem containerAttrs_nil {a : Option (List Attr)} (h : containerAttrs a = []) : a = some [] := by
   cases a with
@@ -746,33 +944,40 @@ theorem lib_skip_reach {v : LibV} : ∀ (inner : List Ev) (s : PS), s.mode = .li
     exact Reach.cons h1 (ih s hm (fun x hx => h x (List.mem_cons_of_mem _ hx)))
 
 theorem note_kids_reach : ∀ (kids : List NItem) (s : PS), s.mode = .note → (∀ k, k ∈ kids → NShaped k) →
-    ∃ nt, Reach rd s (kids.flatMap NItem.evs) { s with g := { s.g with note := nt } } := by
+    ∃ nt, Reach rd s (kids.flatMap NItem.evs) { s with g := { s.g with note := nt } } ∧
+      ((s.g.note.isSome = true ∨ ∃ t, NItem.text (some t) ∈ kids) → nt.isSome = true) := by
   intro kids
   induction kids with
-  | nil => intro s _ _; exact ⟨s.g.note, (Reach.nil s).cast (by cases s with | mk g _ _ _ _ _ _ => cases g; rfl)⟩
+  | nil =>
+    intro s _ _
+    exact ⟨s.g.note, (Reach.nil s).cast (by cases s with | mk g _ _ _ _ _ _ => cases g; rfl),
+      fun h => h.elim id (fun ⟨t, ht⟩ => by simp at ht)⟩
   | cons k r ih =>
     intro s hm h
     have hk := h k List.mem_cons_self
     cases k with
     | comment =>
       have h1 : step rd s .comment = .ok (.inl s) := by simp [step, hm, stepNote, cont]
-      obtain ⟨nt, hr⟩ := ih s hm (fun x hx => h x (List.mem_cons_of_mem _ hx))
-      exact ⟨nt, by simpa [List.flatMap_cons, NItem.evs] using Reach.cons h1 hr⟩
+      obtain ⟨nt, hr, hlo⟩ := ih s hm (fun x hx => h x (List.mem_cons_of_mem _ hx))
+      exact ⟨nt, by simpa [List.flatMap_cons, NItem.evs] using Reach.cons h1 hr,
+        fun hh => hlo (hh.imp id (fun ⟨t, ht⟩ => ⟨t, by simpa using ht⟩))⟩
     | cdata =>
       have h1 : step rd s .cdata = .ok (.inl s) := by simp [step, hm, stepNote, cont]
-      obtain ⟨nt, hr⟩ := ih s hm (fun x hx => h x (List.mem_cons_of_mem _ hx))
-      exact ⟨nt, by simpa [List.flatMap_cons, NItem.evs] using Reach.cons h1 hr⟩
+      obtain ⟨nt, hr, hlo⟩ := ih s hm (fun x hx => h x (List.mem_cons_of_mem _ hx))
+      exact ⟨nt, by simpa [List.flatMap_cons, NItem.evs] using Reach.cons h1 hr,
+        fun hh => hlo (hh.imp id (fun ⟨t, ht⟩ => ⟨t, by simpa using ht⟩))⟩
     | text t =>
       cases t with
       | none => exact absurd hk (by simp [NShaped])
       | some t =>
         have h1 : step rd s (.text (some t)) = .ok (.inl { s with g := { s.g with note := some t } }) := by
           simp [step, hm, stepNote, cont]
-        obtain ⟨nt, hr⟩ := ih { s with g := { s.g with note := some t } } hm (fun x hx => h x (List.mem_cons_of_mem _ hx))
-        exact ⟨nt, by simpa [List.flatMap_cons, NItem.evs] using Reach.cons h1 hr⟩
+        obtain ⟨nt, hr, hlo⟩ := ih { s with g := { s.g with note := some t } } hm (fun x hx => h x (List.mem_cons_of_mem _ hx))
+        exact ⟨nt, by simpa [List.flatMap_cons, NItem.evs] using Reach.cons h1 hr, fun _ => hlo (Or.inl rfl)⟩
 
-theorem bodyStep_same (s : PS) (hm : s.mode = .body) (ids : List Str) (nm : Option Str) : BodyStep s s ids nm :=
-  ⟨hm, rfl, fun i hi => Or.inl hi, Or.inl, Or.inl, Or.inl, Or.inl, Or.inl⟩
+theorem bodyStep_same (s : PS) (hm : s.mode = .body) : BodyStep s s [] none :=
+  ⟨hm, rfl, fun i hi => Or.inl hi, Or.inl, Or.inl, Or.inl, Or.inl, Or.inl,
+    ⟨fun i hi => (by simp at hi), fun h => (by cases h), fun h => (by cases h), fun h => (by cases h), fun h => (by cases h)⟩⟩
 
 /-- one body item of a `judge`-clean document, from any state that fits -/
 theorem item_reach (law : ReadsNumerals rd) {s : PS} (hm : s.mode = .body) (it : Item)
@@ -788,7 +993,7 @@ theorem item_reach (law : ReadsNumerals rd) {s : PS} (hm : s.mode = .body) (it :
   cases it with
   | comment =>
     have h1 : step rd s .comment = .ok (.inl s) := by simp [step, hm, stepBody, cont]
-    exact ⟨s, Reach.one h1, bodyStep_same s hm _ _, hl⟩
+    exact ⟨s, Reach.one h1, bodyStep_same s hm, hl⟩
   | note a kids =>
     simp only [itemCheck] at hclean
     have hmc := merge_clean hclean
@@ -800,14 +1005,16 @@ theorem item_reach (law : ReadsNumerals rd) {s : PS} (hm : s.mode = .body) (it :
     have hn := hnote rfl
     have h1 : step rd s (.start sNote a) = .ok (.inl { s with mode := .note }) := by
       simp +decide [step, hm, stepBody, bodyStart, hv, hn, cont]
-    obtain ⟨nt, hr⟩ := note_kids_reach (rd := rd) kids { s with mode := .note } rfl hsh
+    obtain ⟨nt, hr, _⟩ := note_kids_reach (rd := rd) kids { s with mode := .note } rfl hsh
     have h3 : step rd { s with mode := .note, g := { s.g with note := nt } } (.close sNote) =
         .ok (.inl { s with mode := .body, g := { s.g with note := nt } }) := by
       simp [step, stepNote, cont]
     refine ⟨{ s with mode := .body, g := { s.g with note := nt } }, ?_, ?_, hl⟩
     · simp only [Item.evs]
       exact Reach.cons h1 (Reach.append hr (Reach.one h3))
-    · exact ⟨rfl, rfl, fun i hi => Or.inl hi, Or.inl, Or.inl, Or.inl, fun _ => Or.inr rfl, Or.inl⟩
+    · exact ⟨rfl, rfl, fun i hi => Or.inl hi, Or.inl, Or.inl, Or.inl, fun _ => Or.inr rfl, Or.inl,
+        ⟨fun i hi => (by simp [itemIdents] at hi), fun h => (by simp +decide [itemName] at h), fun h => (by simp +decide [itemName] at h),
+          fun h => (by simp +decide [itemName] at h), fun h => (by simp +decide [itemName] at h)⟩⟩
   | lib a v inner =>
     simp only [itemCheck] at hclean
     have hmc := merge_clean hclean
@@ -827,22 +1034,27 @@ theorem item_reach (law : ReadsNumerals rd) {s : PS} (hm : s.mode = .body) (it :
       refine ⟨{ s with seenLib := true, mode := .body, g := { s.g with lib := d } }, ?_, ?_, hlnew a d inner rfl⟩
       · simp only [Item.evs]
         exact Reach.cons h1 (Reach.append hr (Reach.one h3))
-      · exact ⟨rfl, rfl, fun i hi => Or.inl hi, Or.inl, Or.inl, fun _ => Or.inr rfl, Or.inl, Or.inl⟩
+      · exact ⟨rfl, rfl, fun i hi => Or.inl hi, Or.inl, Or.inl, fun _ => Or.inr rfl, Or.inl, Or.inl,
+          ⟨fun i hi => (by simp [itemIdents] at hi), fun h => (by simp +decide [itemName] at h), fun h => (by simp +decide [itemName] at h),
+            fun _ => rfl, fun h => (by simp +decide [itemName] at h)⟩⟩
   | outline a sc kids =>
     simp only [itemCheck] at hclean
     have hmc := merge_clean hclean
     have ha := containerAttrs_nil (by simpa using hmc _ List.mem_cons_self : containerAttrs a = [])
     have hso := hout rfl
+    obtain ⟨hsh, hscE⟩ := hsh
     cases sc with
     | true =>
       have h1 : step rd s (.empty sOutline a) = .ok (.inl { s with seenOutline := true }) := by
         simp [step, hm, stepBody, bodyEmpty, hso, cont]
       refine ⟨{ s with seenOutline := true }, by simpa [Item.evs] using Reach.one h1, ?_, hl⟩
-      exact ⟨hm, rfl, fun i hi => Or.inl hi, Or.inl, fun _ => Or.inr rfl, Or.inl, Or.inl, Or.inl⟩
+      exact ⟨hm, rfl, fun i hi => Or.inl hi, Or.inl, fun _ => Or.inr rfl, Or.inl, Or.inl, Or.inl,
+        ⟨fun i hi => (by simp [itemIdents, hscE rfl] at hi), fun h => (by simp +decide [itemName] at h), fun _ => rfl,
+          fun h => (by simp +decide [itemName] at h), fun h => (by simp +decide [itemName] at h)⟩⟩
     | false =>
       have h1 : step rd s (.start sOutline a) = .ok (.inl { s with seenOutline := true, mode := .outline {} }) := by
         simp [step, hm, stepBody, bodyStart, hso, cont]
-      obtain ⟨sn, ob', hr, hb⟩ := outline_kids_reach law kids { s with seenOutline := true, mode := .outline {} } {} rfl hsh
+      obtain ⟨sn, ob', hr, hb, hlo⟩ := outline_kids_reach law kids { s with seenOutline := true, mode := .outline {} } {} rfl hsh
         (fun k hk => hmc _ (List.mem_cons_of_mem _ (List.mem_map.2 ⟨k, hk, rfl⟩))) hnd hfr
       have h3 : step rd { s with seenOutline := true, seen := sn, mode := .outline ob' } (.close sOutline) =
           .ok (.inl (finishOutline { s with seenOutline := true, seen := sn, mode := .outline ob' } ob')) := by
@@ -853,8 +1065,12 @@ theorem item_reach (law : ReadsNumerals rd) {s : PS} (hm : s.mode = .body) (it :
       · unfold finishOutline
         split
         · cases upgradeV1 ob'.contours
-          exact ⟨rfl, rfl, hb, Or.inl, fun _ => Or.inr rfl, Or.inl, Or.inl, Or.inl⟩
-        · exact ⟨rfl, rfl, hb, Or.inl, fun _ => Or.inr rfl, Or.inl, Or.inl, Or.inl⟩
+          exact ⟨rfl, rfl, hb, Or.inl, fun _ => Or.inr rfl, Or.inl, Or.inl, Or.inl,
+            ⟨fun i hi => hlo i (Or.inr hi), fun h => (by simp +decide [itemName] at h), fun _ => rfl,
+              fun h => (by simp +decide [itemName] at h), fun h => (by simp +decide [itemName] at h)⟩⟩
+        · exact ⟨rfl, rfl, hb, Or.inl, fun _ => Or.inr rfl, Or.inl, Or.inl, Or.inl,
+            ⟨fun i hi => hlo i (Or.inr hi), fun h => (by simp +decide [itemName] at h), fun _ => rfl,
+              fun h => (by simp +decide [itemName] at h), fun h => (by simp +decide [itemName] at h)⟩⟩
       · unfold finishOutline
         split
         · cases upgradeV1 ob'.contours; exact hl
@@ -879,13 +1095,18 @@ theorem item_reach (law : ReadsNumerals rd) {s : PS} (hm : s.mode = .body) (it :
             { s with seenAdvance := true, g := { s.g with width := w, height := h } }) := by
           rw [hn]; simp +decide [step, hm, stepBody, bodyEmpty, hs, hp, cont]
         refine ⟨{ s with seenAdvance := true, g := { s.g with width := w, height := h } }, by rw [hevs]; exact Reach.one h1, ?_, hl⟩
-        exact ⟨hm, rfl, fun i hi => Or.inl hi, fun _ => Or.inr (by simp [itemName, hn]), Or.inl, Or.inl, Or.inl, Or.inl⟩
+        exact ⟨hm, rfl, fun i hi => Or.inl hi, fun _ => Or.inr (by simp [itemName, hn]), Or.inl, Or.inl, Or.inl, Or.inl,
+          ⟨fun i hi => (by simp +decide [itemIdents, hn] at hi), fun _ => rfl, fun h => (by simp +decide [itemName, hn] at h),
+            fun h => (by simp +decide [itemName, hn] at h), fun h => (by simp +decide [itemName, hn] at h)⟩⟩
       · -- unicode
         obtain ⟨cps, hp⟩ := unicode_clean_accepted hc hn s.g.codepoints
         have h1 : step rd s (.empty e.name (some as)) = .ok (.inl { s with g := { s.g with codepoints := cps } }) := by
           rw [hn]; simp +decide [step, hm, stepBody, bodyEmpty, hp, cont]
         refine ⟨{ s with g := { s.g with codepoints := cps } }, by rw [hevs]; exact Reach.one h1, ?_, hl⟩
-        exact ⟨hm, rfl, fun i hi => Or.inl hi, Or.inl, Or.inl, Or.inl, Or.inl, Or.inl⟩
+        exact ⟨hm, rfl, fun i hi => Or.inl hi, Or.inl, Or.inl, Or.inl, Or.inl, Or.inl,
+          ⟨fun i hi => (by simp +decide [itemIdents, hn] at hi), fun h => (by simp +decide [itemName, hn] at h),
+            fun h => (by simp +decide [itemName, hn] at h), fun h => (by simp +decide [itemName, hn] at h),
+            fun h => (by simp +decide [itemName, hn] at h)⟩⟩
       · -- anchor
         have hids : itemIdents (.elem e) = (Spec.get as "identifier").toList := by
           simp [itemIdents, hn, elemIdent_eq hc.attrs]
@@ -896,7 +1117,17 @@ theorem item_reach (law : ReadsNumerals rd) {s : PS} (hm : s.mode = .body) (it :
             { s with seen := addSeen s.seen x.ident, g := { s.g with anchors := s.g.anchors ++ [x] } }) := by
           rw [hn]; simp +decide [step, hm, stepBody, bodyEmpty, hv, hp, cont]
         refine ⟨{ s with seen := addSeen s.seen x.ident, g := { s.g with anchors := s.g.anchors ++ [x] } }, by rw [hevs]; exact Reach.one h1, ?_, hl⟩
-        refine ⟨hm, rfl, ?_, Or.inl, Or.inl, Or.inl, Or.inl, Or.inl⟩
+        refine ⟨hm, rfl, ?_, Or.inl, Or.inl, Or.inl, Or.inl, Or.inl,
+          ⟨?_, fun h => (by simp +decide [itemName, hn] at h), fun h => (by simp +decide [itemName, hn] at h),
+            fun h => (by simp +decide [itemName, hn] at h), fun h => (by simp +decide [itemName, hn] at h)⟩⟩
+        rotate_left 1
+        · intro i hi
+          rw [hids] at hi
+          show i ∈ addSeen s.seen x.ident
+          rw [parseAnchor_ident hnda hp]
+          cases hg : Spec.get as "identifier" with
+          | none => simp [hg] at hi
+          | some j => simp [hg] at hi; simp [addSeen, hi]
         intro i hi
         cases hx : x.ident with
         | none => simp [addSeen, hx] at hi; exact Or.inl hi
@@ -915,7 +1146,17 @@ theorem item_reach (law : ReadsNumerals rd) {s : PS} (hm : s.mode = .body) (it :
             { s with seen := addSeen s.seen x.ident, g := { s.g with guidelines := s.g.guidelines ++ [x] } }) := by
           rw [hn]; simp +decide [step, hm, stepBody, bodyEmpty, hv, hp, cont]
         refine ⟨{ s with seen := addSeen s.seen x.ident, g := { s.g with guidelines := s.g.guidelines ++ [x] } }, by rw [hevs]; exact Reach.one h1, ?_, hl⟩
-        refine ⟨hm, rfl, ?_, Or.inl, Or.inl, Or.inl, Or.inl, Or.inl⟩
+        refine ⟨hm, rfl, ?_, Or.inl, Or.inl, Or.inl, Or.inl, Or.inl,
+          ⟨?_, fun h => (by simp +decide [itemName, hn] at h), fun h => (by simp +decide [itemName, hn] at h),
+            fun h => (by simp +decide [itemName, hn] at h), fun h => (by simp +decide [itemName, hn] at h)⟩⟩
+        rotate_left 1
+        · intro i hi
+          rw [hids] at hi
+          show i ∈ addSeen s.seen x.ident
+          rw [parseGuideline_ident hnda hp]
+          cases hg : Spec.get as "identifier" with
+          | none => simp [hg] at hi
+          | some j => simp [hg] at hi; simp [addSeen, hi]
         intro i hi
         cases hx : x.ident with
         | none => simp [addSeen, hx] at hi; exact Or.inl hi
@@ -931,7 +1172,9 @@ theorem item_reach (law : ReadsNumerals rd) {s : PS} (hm : s.mode = .body) (it :
         have h1 : step rd s (.empty e.name (some as)) = .ok (.inl { s with g := { s.g with image := some x } }) := by
           rw [hn]; simp +decide [step, hm, stepBody, bodyEmpty, hv, hi, hp, cont]
         refine ⟨{ s with g := { s.g with image := some x } }, by rw [hevs]; exact Reach.one h1, ?_, hl⟩
-        exact ⟨hm, rfl, fun i hi => Or.inl hi, Or.inl, Or.inl, Or.inl, Or.inl, fun _ => Or.inr (by simp [itemName, hn])⟩
+        exact ⟨hm, rfl, fun i hi => Or.inl hi, Or.inl, Or.inl, Or.inl, Or.inl, fun _ => Or.inr (by simp [itemName, hn]),
+          ⟨fun i hi => (by simp +decide [itemIdents, hn] at hi), fun h => (by simp +decide [itemName, hn] at h),
+            fun h => (by simp +decide [itemName, hn] at h), fun h => (by simp +decide [itemName, hn] at h), fun _ => rfl⟩⟩
     · simp only [hb] at hclean
       by_cases hnn : e.name = sNote
       · -- an empty note, explicit close
@@ -950,9 +1193,63 @@ theorem item_reach (law : ReadsNumerals rd) {s : PS} (hm : s.mode = .body) (it :
         refine ⟨{ s with mode := .body }, ?_, ?_, hl⟩
         · simp only [Item.evs, Elem.evs, hsc, hnn, ha]
           exact Reach.cons h1 (Reach.one h2)
-        · exact ⟨rfl, rfl, fun i hi => Or.inl hi, Or.inl, Or.inl, Or.inl, Or.inl, Or.inl⟩
+        · exact ⟨rfl, rfl, fun i hi => Or.inl hi, Or.inl, Or.inl, Or.inl, Or.inl, Or.inl,
+            ⟨fun i hi => (by simp +decide [itemIdents, hnn] at hi), fun h => (by simp +decide [itemName, hnn] at h),
+              fun h => (by simp +decide [itemName, hnn] at h), fun h => (by simp +decide [itemName, hnn] at h),
+              fun h => (by simp +decide [itemName, hnn] at h)⟩⟩
       · simp only [hnn, if_false] at hclean
         by_cases hll : e.name = sLib <;> simp [hll] at hclean
+
+/-- consuming an event list is deterministic -/
+theorem reach_unique {rd : Str → Option Nat} {s s1 s2 : PS} {evs : List Ev} (h1 : Reach rd s evs s1) (h2 : Reach rd s evs s2) :
+    s1 = s2 := by
+  induction h1 with
+  | nil s => cases h2; rfl
+  | cons hs _ ih =>
+    cases h2 with
+    | cons hs' hr' => rw [hs] at hs'; cases hs'; exact ih hr'
+
+/-- `item_reach`, with what a note that has text leaves behind -/
+theorem item_reach_note (law : ReadsNumerals rd) {s : PS} (hm : s.mode = .body) (it : Item)
+    (hclean : itemCheck rd s.ver it = ([], false)) (hsh : IShaped it)
+    (hnd : (itemIdents it).Nodup) (hfr : ∀ i, i ∈ itemIdents it → i ∉ s.seen)
+    (hadv : itemName it = some sAdvance → s.seenAdvance = false)
+    (hout : itemName it = some sOutline → s.seenOutline = false)
+    (hlib : itemName it = some sLib → s.seenLib = false)
+    (hnote : itemName it = some sNote → s.g.note = none)
+    (himg : itemName it = some sImage → s.g.image = none)
+    (hl : LibOK s.g.lib) (hlnew : ∀ a d inner, it = .lib a (.dict d) inner → LibOK d) :
+    ∃ s', Reach rd s (Item.evs it) s' ∧ BodyStep s s' (itemIdents it) (itemName it) ∧ LibOK s'.g.lib ∧
+      (noteWithText it → s'.g.note.isSome = true) := by
+  obtain ⟨s', hr, hb, hl'⟩ := item_reach law hm it hclean hsh hnd hfr hadv hout hlib hnote himg hl hlnew
+  refine ⟨s', hr, hb, hl', ?_⟩
+  cases it with
+  | note a kids =>
+    intro hwt
+    -- the same steps again, now keeping track of the text
+    simp only [itemCheck] at hclean
+    have hmc := merge_clean hclean
+    have hv : s.ver ≠ 1 := by
+      intro e
+      have := hmc _ (List.mem_cons_of_mem _ List.mem_cons_self)
+      simp [e] at this
+    have hn := hnote rfl
+    have h1 : step rd s (.start sNote a) = .ok (.inl { s with mode := .note }) := by
+      simp +decide [step, hm, stepBody, bodyStart, hv, hn, cont]
+    obtain ⟨nt, hr2, hlo⟩ := note_kids_reach (rd := rd) kids { s with mode := .note } rfl hsh
+    have h3 : step rd { s with mode := .note, g := { s.g with note := nt } } (.close sNote) =
+        .ok (.inl { s with mode := .body, g := { s.g with note := nt } }) := by
+      simp [step, stepNote, cont]
+    have hr' : Reach rd s (Item.evs (.note a kids)) { s with mode := .body, g := { s.g with note := nt } } := by
+      simp only [Item.evs]
+      exact Reach.cons h1 (Reach.append hr2 (Reach.one h3))
+    have := reach_unique hr hr'
+    rw [this]
+    exact hlo (Or.inr hwt)
+  | comment => intro h; exact h.elim
+  | lib _ _ _ => intro h; exact h.elim
+  | outline _ _ _ => intro h; exact h.elim
+  | elem _ => intro h; exact h.elim
 
 /-! ### a whole body, and the document -/
 
@@ -969,6 +1266,61 @@ theorem cnt_cons (it : Item) (r : List Item) (n : Str) :
       | true => exact absurd (by simpa using hb) h
     simp [List.filter_cons, this, h]
 
+/-- the exact effect of a clean list of body items on the parser state: which identifiers have been seen, which once-only
+    elements have occurred -/
+structure BodyRun (s s' : PS) (its : List Item) : Prop where
+  ver : s'.ver = s.ver
+  seen : ∀ i, i ∈ s'.seen ↔ (i ∈ s.seen ∨ i ∈ its.flatMap itemIdents)
+  adv : s'.seenAdvance = true ↔ (s.seenAdvance = true ∨ 0 < cnt its sAdvance)
+  outline : s'.seenOutline = true ↔ (s.seenOutline = true ∨ 0 < cnt its sOutline)
+  lib : s'.seenLib = true ↔ (s.seenLib = true ∨ 0 < cnt its sLib)
+  image : s'.g.image.isSome = true ↔ (s.g.image.isSome = true ∨ 0 < cnt its sImage)
+  note : s'.g.note.isSome = true → (s.g.note.isSome = true ∨ 0 < cnt its sNote)
+  noteLow : (s.g.note.isSome = true ∨ ∃ it, it ∈ its ∧ noteWithText it) → s'.g.note.isSome = true
+
+theorem bodyRun_nil (s : PS) : BodyRun s s [] := by
+  constructor <;> simp [cnt]
+
+theorem bodyRun_cons {s s1 s2 : PS} {it : Item} {r : List Item} (hm : Mono s s1)
+    (hb : BodyStep s s1 (itemIdents it) (itemName it)) (hnt : noteWithText it → s1.g.note.isSome = true)
+    (hr : BodyRun s1 s2 r) : BodyRun s s2 (it :: r) := by
+  have flag : ∀ (n : Str) (a a1 a2 : Prop), (a1 ↔ (a ∨ itemName it = some n)) → (a2 ↔ (a1 ∨ 0 < cnt r n)) →
+      (a2 ↔ (a ∨ 0 < cnt (it :: r) n)) := by
+    intro n a a1 a2 h1 h2
+    rw [h2, h1, cnt_cons]
+    by_cases hn : itemName it = some n
+    · simp [hn]
+    · simp [hn]
+  constructor
+  · rw [hr.ver, hb.ver]
+  · intro i
+    rw [hr.seen, List.flatMap_cons, List.mem_append]
+    constructor
+    · rintro (h | h)
+      · rcases hb.seen i h with h' | h'
+        · exact Or.inl h'
+        · exact Or.inr (Or.inl h')
+      · exact Or.inr (Or.inr h)
+    · rintro (h | h | h)
+      · exact Or.inl (hm.seen i h)
+      · exact Or.inl (hb.low.seen i h)
+      · exact Or.inr h
+  · exact flag sAdvance _ _ _ ⟨hb.adv, fun h => h.elim hm.adv hb.low.adv⟩ hr.adv
+  · exact flag sOutline _ _ _ ⟨hb.outline, fun h => h.elim hm.outline hb.low.outline⟩ hr.outline
+  · exact flag sLib _ _ _ ⟨hb.lib, fun h => h.elim hm.lib hb.low.lib⟩ hr.lib
+  · exact flag sImage _ _ _ ⟨hb.image, fun h => h.elim hm.image hb.low.image⟩ hr.image
+  · intro h
+    rcases hr.note h with h1 | h1
+    · rcases hb.note h1 with h2 | h2
+      · exact Or.inl h2
+      · right; rw [cnt_cons, if_pos h2]; omega
+    · right; rw [cnt_cons]; omega
+  · rintro (h | ⟨x, hx, hw⟩)
+    · exact hr.noteLow (Or.inl (hm.note h))
+    · rcases List.mem_cons.1 hx with rfl | hx
+      · exact hr.noteLow (Or.inl (hnt hw))
+      · exact hr.noteLow (Or.inr ⟨x, hx, hw⟩)
+
 theorem items_reach (law : ReadsNumerals rd) : ∀ (its : List Item) (s : PS), s.mode = .body →
     (∀ it, it ∈ its → itemCheck rd s.ver it = ([], false)) → (∀ it, it ∈ its → IShaped it) →
     (its.flatMap itemIdents).Nodup → (∀ i, i ∈ its.flatMap itemIdents → i ∉ s.seen) →
@@ -977,10 +1329,10 @@ theorem items_reach (law : ReadsNumerals rd) : ∀ (its : List Item) (s : PS), s
     (s.seenLib = true → cnt its sLib = 0) → (s.g.note.isSome = true → cnt its sNote = 0) →
     (s.g.image.isSome = true → cnt its sImage = 0) →
     LibOK s.g.lib → (∀ a d inner, Item.lib a (.dict d) inner ∈ its → LibOK d) →
-    ∃ s', Reach rd s (its.flatMap Item.evs) s' ∧ s'.mode = .body ∧ LibOK s'.g.lib := by
+    ∃ s', Reach rd s (its.flatMap Item.evs) s' ∧ s'.mode = .body ∧ LibOK s'.g.lib ∧ BodyRun s s' its := by
   intro its
   induction its with
-  | nil => intro s hm _ _ _ _ _ _ _ _ _ _ hl _; exact ⟨s, Reach.nil s, hm, hl⟩
+  | nil => intro s hm _ _ _ _ _ _ _ _ _ _ hl _; exact ⟨s, Reach.nil s, hm, hl, bodyRun_nil s⟩
   | cons it r ih =>
     intro s hm hcl hsh hnd hfr hcnt ha ho hli hn hi hl hlnew
     rw [List.flatMap_cons] at hnd hfr
@@ -1001,7 +1353,7 @@ theorem items_reach (law : ReadsNumerals rd) : ∀ (its : List Item) (s : PS), s
       rw [cnt_cons, if_pos e] at h0
       omega
     have bfalse : ∀ {b : Bool}, (b = true → False) → b = false := by intro b h; cases b <;> simp_all
-    obtain ⟨s1, hr1, hb1, hl1⟩ := item_reach law hm it (hcl it List.mem_cons_self) (hsh it List.mem_cons_self) n1
+    obtain ⟨s1, hr1, hb1, hl1, hnt1⟩ := item_reach_note law hm it (hcl it List.mem_cons_self) (hsh it List.mem_cons_self) n1
       (fun i hi => hfr i (List.mem_append_left _ hi))
       (fun e => bfalse (fun h => pre _ (ha h) e)) (fun e => bfalse (fun h => pre _ (ho h) e))
       (fun e => bfalse (fun h => pre _ (hli h) e))
@@ -1023,7 +1375,7 @@ theorem items_reach (law : ReadsNumerals rd) : ∀ (its : List Item) (s : PS), s
       rcases h with h | h
       · rw [cnt_cons] at h; omega
       · rw [if_pos h] at h1; omega
-    obtain ⟨s2, hr2, hm2, hl2⟩ := ih s1 hb1.mode
+    obtain ⟨s2, hr2, hm2, hl2, hrun2⟩ := ih s1 hb1.mode
       (fun x hx => by rw [hb1.ver]; exact hcl x (List.mem_cons_of_mem _ hx))
       (fun x hx => hsh x (List.mem_cons_of_mem _ hx)) n2
       (by
@@ -1042,7 +1394,7 @@ theorem items_reach (law : ReadsNumerals rd) : ∀ (its : List Item) (s : PS), s
       (fun h => post _ (Or.inr (Or.inr (Or.inr (Or.inl rfl)))) ((hb1.note h).imp hn id))
       (fun h => post _ (Or.inr (Or.inr (Or.inr (Or.inr rfl)))) ((hb1.image h).imp hi id))
       hl1 (fun a d inner hx => hlnew a d inner (List.mem_cons_of_mem _ hx))
-    exact ⟨s2, by rw [List.flatMap_cons]; exact Reach.append hr1 hr2, hm2, hl2⟩
+    exact ⟨s2, by rw [List.flatMap_cons]; exact Reach.append hr1 hr2, hm2, hl2, bodyRun_cons (reach_mono rd hr1) hb1 hnt1 hrun2⟩
 
 /-- what the tokeniser and the shape reader guarantee of a document, and the three spellings the recorded findings
     exclude (content-free elements self-closing, `note` and `glyph` not self-closed) -/
@@ -1099,7 +1451,7 @@ theorem judge_clean_accepted (law : ReadsNumerals rd) {d : Doc} (hj : judge rd d
     · right
       simp only [not_or] at h
       exact h
-  obtain ⟨s', hr, hm', hl'⟩ := items_reach law d.items { g := { name := name }, ver := ver } rfl hc.items hs.items
+  obtain ⟨s', hr, hm', hl', _⟩ := items_reach law d.items { g := { name := name }, ver := ver } rfl hc.items hs.items
     hc.idents (by simp) hcnt (by intro h; cases h) (by intro h; cases h) (by intro h; cases h)
     (by intro h; simp at h) (by intro h; simp at h) (by intro v hv; simp [dictGet] at hv)
     (libOK_of_objectLibsCheck hc.objlibs)
